@@ -49,6 +49,11 @@ pub struct View<'a> {
     pub in_cb: Option<(u8, CbKind, bool)>,
     pub regs: [Option<(u32, Kind)>; NREGS],
     pub wregs: [Option<(u32, Kind)>; NREGS],
+    /// colour (0 White, 1 WhiteWeak, 2 Gray, 3 Black) and needs_trace of the registers' targets
+    pub reg_col: [Option<(u8, bool)>; NREGS],
+    pub wreg_col: [Option<(u8, bool)>; NREGS],
+    /// phase of the current callback's arena (0 Sleep 1 Mark 2 Sweep)
+    pub cb_phase: u8,
     pub arenas: [bool; NARENAS],
     pub handles: [Option<(u32, u32)>; NHANDLES], // (uid, set id)
     pub uids: [u32; NARENAS],
@@ -261,7 +266,24 @@ impl World {
         for i in 0..NHANDLES {
             handles[i] = self.handles[i].as_ref().map(|h| (h.uid, h.set_id));
         }
-        View { in_cb, regs, wregs, arenas, handles, uids, snaps, books: &self.books, steps: self.steps }
+        let mut reg_col = [None; NREGS];
+        let mut wreg_col = [None; NREGS];
+        let mut cb_phase = 0u8;
+        if let Some((a, _, _)) = in_cb {
+            let ai = a as usize;
+            if let (Some(Some(snap)), Some(book)) = (snaps.get(ai), self.books[ai].as_ref()) {
+                cb_phase = snap.phase;
+                let mut by_id: HashMap<u32, (u8, bool)> = HashMap::new();
+                for o in &snap.all {
+                    if let Some(id) = book.addr2id.get(&o.addr) { by_id.insert(*id, (o.color, o.needs_trace)); }
+                }
+                for i in 0..NREGS {
+                    reg_col[i] = regs[i].and_then(|(id, _)| by_id.get(&id).copied());
+                    wreg_col[i] = wregs[i].and_then(|(id, _)| by_id.get(&id).copied());
+                }
+            }
+        }
+        View { in_cb, regs, wregs, reg_col, wreg_col, cb_phase, arenas, handles, uids, snaps, books: &self.books, steps: self.steps }
     }
 
     // ------------------------------------------------------------------------------------
